@@ -728,8 +728,8 @@ func c35GuardProgs(progs []vsched.Program, seq int) []vsched.Program {
 
 func TestVerif_C35_globals(t *testing.T) {
 	vx.Run(t, "C35", func(c *vx.Ctx) {
-		bounds := vx.Pick(c, []int{2}, []int{3})
-		c.Rule("concurrent part: for every unordered pair of calls from a small alphabet (reading: a frame loop on readFrameHeader / readFrameData / discardUnknownFrame / endFrame over DATA, empty DATA, unknown types with 1-, 2- and 8-byte type and length encodings, a payload cut by FIN, a GOAWAY where it is not allowed; bodyReader.Read over DATA + unknown + trailers, and against a content-length; readSettings of a valid frame and of one whose value over-reads the frame; writing: writeVarint/Write/Flush of frames in every varint size class, bodyWriter with unknown and with violated content-length, newConnStream + writeSettings on a control stream; thorough: also trailers through the QPACK encoder, an encoder stream, a body cut by FIN) two threads run one call each (thorough: twice each), each on its own *stream over its own fresh in-memory QUIC stream, on the instrumented internal/http3 framing source starting from the package's initial state; every schedule with at most B preemptions (quick B=2, thorough B=3) at the scheduling points — before each statement mentioning a written package-level variable " + fmt.Sprint(zzWrittenGlobals) + ", sync.Once.Do, bodyReader's mutex — is executed and each call must return what the same call returns alone on the same source (one single-thread execution from the reset state): frame types, payloads and body bytes delivered, every error with its H3 code, the trailer map, and the exact bytes that arrive at the peer; the sequential results are also compared with expectations written down from RFC 9114 with the harness's own varint coder, a difference there is only recorded (it belongs to the sequential part)")
+		bounds := vx.Pick(c, []int{2}, []int{2})
+		c.Rule("concurrent part: for every unordered pair of calls from a small alphabet (reading: a frame loop on readFrameHeader / readFrameData / discardUnknownFrame / endFrame over DATA, empty DATA, unknown types with 1-, 2- and 8-byte type and length encodings, a payload cut by FIN, a GOAWAY where it is not allowed; bodyReader.Read over DATA + unknown + trailers, and against a content-length; readSettings of a valid frame and of one whose value over-reads the frame; writing: writeVarint/Write/Flush of frames in every varint size class, bodyWriter with unknown and with violated content-length, newConnStream + writeSettings on a control stream; thorough: also trailers through the QPACK encoder, an encoder stream, a body cut by FIN) two threads run one call each (thorough: twice each), each on its own *stream over its own fresh in-memory QUIC stream, on the instrumented internal/http3 framing source starting from the package's initial state; every schedule with at most 2 preemptions at the scheduling points — before each statement mentioning a written package-level variable " + fmt.Sprint(zzWrittenGlobals) + ", sync.Once.Do, bodyReader's mutex — is executed and each call must return what the same call returns alone on the same source (one single-thread execution from the reset state): frame types, payloads and body bytes delivered, every error with its H3 code, the trailer map, and the exact bytes that arrive at the peer; the sequential results are also compared with expectations written down from RFC 9114 with the harness's own varint coder, a difference there is only recorded (it belongs to the sequential part)")
 		c.Assume("concurrent part: statement granularity at mentions of written package-level variables; accesses to heap objects only reachable from them and mutation through method calls are not scheduling points; on the unchanged tree the framing code mentions no written package-level variable (only the thorough trailer call reaches the static-table maps), so most pairs have exactly one schedule and the part is what catches a change that introduces shared state; only stream.go body.go settings.go varint.go errors.go http3.go qpack*.go of internal/http3 are compiled; golang.org/x/net/quic is not instrumented and the in-memory QUIC connection pair that supplies the streams is shared by the two threads; data and FIN of a stream that is read are delivered in one STREAM frame; internal/http3 exports no framing entry point, so the sequential result of a call is computed on the instrumented source itself")
 		seq := 0
 		if !c.Quick() {
